@@ -762,12 +762,18 @@ class CountControlConstructionToken(CompositeBaseToken):
          BracketFinishToken]
     ]
 
+    @staticmethod
+    def _is_lone_operand(expression) -> bool:
+        """An argument that is nothing but one operand (an area, a cell reference): `A1:B2`, `A1` - not `A1+1`, not `(A1)`."""
+        return expression.left_operand is not None and expression.operator is None and expression.right_operand is None \
+            and expression.left_operand.__class__ is OperandToken
+
     @property
     def matrices(self) -> list[MatrixOfCellIdentifiersToken]:
         return [
             expression.left_operand.matrix
             for expression in self.value[2].expressions
-            if hasattr(expression.left_operand, 'matrix') and expression.left_operand.matrix is not None
+            if self._is_lone_operand(expression) and expression.left_operand.matrix is not None
         ]
 
     @property
@@ -775,16 +781,17 @@ class CountControlConstructionToken(CompositeBaseToken):
         return [
             expression.left_operand.value[0]
             for expression in self.value[2].expressions
-            if expression.left_operand is not None and isinstance(expression.left_operand.value[0], CellIdentifierToken)
+            if self._is_lone_operand(expression) and isinstance(expression.left_operand.value[0], CellIdentifierToken)
         ]
 
     @property
     def expressions(self):
+        # every other argument (a literal, a signed or bracketed value, arithmetic, a nested call) is a value of its own
         return [
             expression
             for expression in self.value[2].expressions
-            # a signed argument (-2) or a bracketed one has no left operand of its own: it is a scalar expression too
-            if expression.left_operand is None or isinstance(expression.left_operand.value[0], LiteralToken)
+            if not (self._is_lone_operand(expression) and (expression.left_operand.matrix is not None
+                                                           or isinstance(expression.left_operand.value[0], CellIdentifierToken)))
         ]
 
 
